@@ -227,6 +227,11 @@ func (r *c18Run) readStream() []c18Msg {
 	}
 	ctx, cancel := context.WithCancel(context.Background())
 	defer cancel()
+	if p.IsPaused() {
+		// the activity stream is (still) paused: a subscriber gets nothing from it - the oracle judges what that means for the
+		// operations committed so far (every one of them must appear; the dispatcher's publish resumes the stream)
+		return nil
+	}
 	sub, st := p.Subscribe(ctx, &client.SubscribeRequest{Stream: activityStream, StartPosition: client.StartPosition_EARLIEST})
 	if st != nil {
 		if !strings.Contains(st.Message(), "empty") {
